@@ -649,13 +649,13 @@ class Engine:
             return True
         if z3.is_false(c):
             return False
-        t0 = time.time()
-        self.queries += 1
-        r = self._fresh_check(st.pc + [c])[0]
-        self.solver_time += time.time() - t0
-        if r == z3.unknown:
-            raise Unsupported("solver unknown in feasibility")
-        return r == z3.sat
+        r, _ = self.check_sat(st.pc + [c], recheck=False)
+        if r == "unknown":
+            # undecided branch condition: explore the branch. This is sound for verification (an infeasible path only adds
+            # obligations whose own queries are then undecided or unsat) and is reported through the witness queries.
+            self.undecided_branches = getattr(self, "undecided_branches", 0) + 1
+            return True
+        return r == "sat"
 
     def _fresh_check(self, conds):
         # a fresh non-incremental solver per query: z3 then uses its tactic pipeline
@@ -667,15 +667,22 @@ class Engine:
         r = s.check()
         return r, (s.model() if r == z3.sat else None)
 
-    def check_sat(self, conds):
+    def check_sat(self, conds, recheck=True):
         t0 = time.time()
         self.queries += 1
-        r, mdl = self._fresh_check(conds)
+        # first a short attempt; hard (typically nonlinear) queries then go to the abstraction below before the full timeout
+        full = self.timeout_ms
+        short = min(full, 10000)
+        self.timeout_ms = short
+        try:
+            r, mdl = self._fresh_check(conds)
+        finally:
+            self.timeout_ms = full
         self.solver_time += time.time() - t0
         if r == z3.sat:
             return "sat", mdl
         if r == z3.unsat:
-            if getattr(self, "recheck_budget", 0) > 0:
+            if recheck and getattr(self, "recheck_budget", 0) > 0:
                 self.second_opinion(conds)
             return "unsat", None
         # symbolic-by-symbolic multiplication / division stalls bit-blasting: retry with those operators replaced by
@@ -689,6 +696,15 @@ class Engine:
             self.solver_time += time.time() - t0
             if r2 == z3.unsat:
                 self.abstracted = getattr(self, "abstracted", 0) + 1
+                return "unsat", None
+        if full > short:
+            t0 = time.time()
+            self.queries += 1
+            r, mdl = self._fresh_check(conds)
+            self.solver_time += time.time() - t0
+            if r == z3.sat:
+                return "sat", mdl
+            if r == z3.unsat:
                 return "unsat", None
         return "unknown", None
 
